@@ -50,7 +50,15 @@ def main():
             outs = []
             d = next((f for f in demos if f.endswith(".pangaea")), None)
             if d:
-                outs.append(sh("go run . %s 2>&1 | head -60" % d, cwd=wt, timeout=600)[1][-1200:])
+                # stdin: `printf '...' | go run ...`  or  `go run ... < file` in the demo command, else empty
+                pre, red = "", "< /dev/null"
+                m = re.search(r"(printf\s+'[^']*'\s*\|)", demo)
+                if m:
+                    pre, red = m.group(1) + " ", ""
+                m = re.search(r"<\s*(\S+)", demo)
+                if m and os.path.exists(os.path.join(wt, os.path.basename(m.group(1)))):
+                    red = "< " + os.path.basename(m.group(1))
+                outs.append(sh("%sgo run . %s %s 2>&1 | head -60" % (pre, d, red), cwd=wt, timeout=600)[1][-1200:])
             for sub, f in gotests:
                 m = re.search(r"-run\s+(\S+)", demo)
                 race = "-race" if "-race" in demo else ""
